@@ -247,6 +247,79 @@ def live_target(ttype, kind, o):
     return nfc.clf.RemoteTarget('212F', sensf_res=H('01' + idm + '00' + ic + 'FFFFFFFFFFFF' + '12FC'))
 
 
+def dep_env_target(penv, kind, asked):
+    """what the environment of the live DEP part presents to a sense call of the real nfc.dep.Initiator"""
+    H = bytearray.fromhex
+    if kind == 'dep':         # active communication mode search (ATR_REQ sent by the driver)
+        if penv == 'active':
+            return nfc.clf.RemoteTarget(asked.brty, atr_req=asked.atr_req,
+                                        atr_res=H('d501 01fe0000000000005354 0000000032 46666d010113'))
+        return None
+    if kind == 'tta':
+        if penv == 't1':
+            return nfc.clf.RemoteTarget('106A', sens_res=H('000C'), rid_res=H('1148B2565400'))
+        sel = {'t2': '00', 't4a': '20', 'dep106': '40', 't4adep': '60'}.get(penv)
+        if sel is not None:
+            return nfc.clf.RemoteTarget('106A', sens_res=H('4400'), sel_res=H(sel), sdd_res=H('08010203'))
+        return None
+    if kind == 'ttf':
+        if penv == 'f_tag':
+            return nfc.clf.RemoteTarget(asked.brty, sensf_res=H('01 0102030405060708 00F1FFFFFFFFFFFF'))
+        if penv == 'f_dep':
+            return nfc.clf.RemoteTarget(asked.brty, sensf_res=H('01 01FE030405060708 0000000000000000'))
+        return None
+    if kind == 'ttb' and penv == 'tb':
+        return nfc.clf.RemoteTarget('106B', sensb_res=H('50E8253EEC00000011008185'))
+    return None
+
+
+def dep_initiator_peer(w, data):
+    """the remote NFC-DEP target of the live DEP part (we are initiator): answers ATR / PSL / DEP / DSL / RLS"""
+    H = bytearray.fromhex
+    f0 = bool(data) and data[0] == 0xF0
+    if f0:
+        data = data[1:]
+    if len(data) < 3 or data[1] != 0xD4:
+        raise nfc.clf.TimeoutError('scripted')
+    code = data[2]
+
+    def out(x):
+        return (bytearray(b'\xF0') if f0 else bytearray()) + x
+    if code in (0x00, 0x04):
+        o = w.xchg.next()
+        w.ev.append('!dep:%02x:%s' % (code, o))
+        if o != 'o':
+            raise nfc.clf.TimeoutError('scripted')
+        if code == 0x00:
+            return out(H('18 d501 01fe0000000000005354 0000000032 46666d010113'))
+        return out(H('04 d505 00'))
+    if code == 0x06:
+        pfb = data[3]
+        if pfb & 0xE0 == 0x80:
+            return out(bytearray([4, 0xD5, 0x07, pfb]))
+        o = w.peer.next()
+        if o == 'x':
+            raise nfc.clf.TimeoutError('scripted')
+        return out(bytearray([6, 0xD5, 0x07, pfb & 3]) + (H('0140') if o == 'd' else H('0000')))
+    if code == 0x08:
+        return out(H('03 d509'))
+    if code == 0x0A:
+        return out(H('03 d50b'))
+    raise nfc.clf.TimeoutError('scripted')
+
+
+def dep_target_peer(w, data):
+    """the remote NFC-DEP initiator of the live DEP part (we are target): sends the next DEP_REQ"""
+    H = bytearray.fromhex
+    if data is None or len(data) < 4 or data[1] != 0xD5 or data[2] != 0x07 or data[3] & 0xE0 != 0:
+        raise nfc.clf.TimeoutError('scripted')
+    o = w.peer.next()
+    if o == 'x':
+        raise nfc.clf.TimeoutError('scripted')
+    pni = ((data[3] & 3) + 1) % 4
+    return bytearray([6, 0xD4, 0x06, pni]) + (H('0140') if o == 'd' else H('0000'))
+
+
 def canned_response(ttype, target, data):
     """what a healthy tag of that type answers to the commands used for activation and presence check;
     None = no answer (the command is not supported: timeout)"""
@@ -300,6 +373,10 @@ class ScriptedDevice(nfc.clf.device.Device):
             self.w.sense_iter += 1
 
     def _sense(self, kind, target):
+        if self.w.in_activate and self.w.live == 'dep':
+            self.w.ev.append('!sense_' + kind)
+            t = dep_env_target(self.w.case.get('penv', 'none'), kind, target)
+            return t if t is None else self.w.name(t, 'rt:dep')
         if self.w.in_activate:
             self.w.ev.append('!resense')
             t = live_target(self.w.case.get('ttype', 't3'), kind, 'f')
@@ -348,6 +425,18 @@ class ScriptedDevice(nfc.clf.device.Device):
         return self._sense('dep', target)
 
     def _listen(self, kind, target, timeout):
+        if self.w.in_activate and self.w.live == 'dep':
+            # the real nfc.dep.Target.activate listens: a remote initiator activates us, or nobody does
+            self.w.ev.append('!listen_' + kind)
+            if self.w.case.get('penv') != 'rinit' or kind != 'dep':
+                return None
+            H = bytearray.fromhex
+            t = nfc.clf.LocalTarget('212F')
+            t.sensf_res = target.sensf_res
+            t.atr_res = target.atr_res
+            t.atr_req = H('d400 01fe0000000000005354 00000032 46666d010113')
+            t.dep_req = H('d406 000000')
+            return self.w.name(t, 'lt:dep')
         self.w.ev.append('listen_%s' % kind)
         self.w.nobj += 1          # number of this driver listen call = identity of its result
         o = self.w.listen.next()
@@ -377,6 +466,8 @@ class ScriptedDevice(nfc.clf.device.Device):
         return self._listen('dep', target, timeout)
 
     def send_cmd_recv_rsp(self, target, data, timeout):
+        if self.w.live == 'dep':
+            return dep_initiator_peer(self.w, bytearray(data))
         if self.w.live == 'tag':
             # live tag: every exchange of the real tag code (activation commands, presence checks)
             # answers, or fails with one of the CommunicationError subclasses
@@ -396,6 +487,8 @@ class ScriptedDevice(nfc.clf.device.Device):
         return bytearray(b'\x00')
 
     def send_rsp_recv_cmd(self, target, data, timeout=None):
+        if self.w.live == 'dep':
+            return dep_target_peer(self.w, None if data is None else bytearray(data))
         self.w.ev.append('rsp>%s' % self.w.nameof(target))
         return bytearray(b'\x00')
 
@@ -502,9 +595,25 @@ class LiveLLC(nfc.llcp.llc.LogicalLinkController):
     world = None
 
     def activate(self, mac, **options):
-        r = super(LiveLLC, self).activate(mac, **options)
-        LiveLLC.world.ev.append('!llc:%d' % bool(r))
+        w = LiveLLC.world
+        try:
+            r = super(LiveLLC, self).activate(mac, **options)
+        except IOError:
+            if w.live == 'dep':
+                w.llcact.items.append('i')
+                w.llcact.pos = len(w.llcact.items)
+            raise
+        if w.live == 'dep':
+            w.llcact.items.append('t' if r else 'f')
+            w.llcact.pos = len(w.llcact.items)
+        w.ev.append('!llc:%d' % bool(r))
         return r
+
+    def exchange(self, send_pdu, timeout):
+        # one link-level exchange (the real NFC-DEP layer below may retry / send attention requests)
+        if LiveLLC.world.live == 'dep':
+            LiveLLC.world.ev.append('!xchg')
+        return super(LiveLLC, self).exchange(send_pdu, timeout)
 
     def _wrapped(self, real, terminate):
         w = LiveLLC.world
@@ -573,6 +682,29 @@ class LiveTargetMAC(nfc.dep.Target):
         LiveTargetMAC.world.ev.append('!deactivate')
 
 
+def _real_dep_classes(w, real_initiator, real_target):
+    """the REAL nfc.dep.Initiator / Target; activate() is only bracketed so that its sense / listen calls
+    are recognised as part of the llc activation"""
+    class RecInitiator(real_initiator):
+        def activate(self, target=None, **options):
+            w.ev.append('llc_activate:initiator')
+            w.in_activate = True
+            try:
+                return super(RecInitiator, self).activate(target, **options)
+            finally:
+                w.in_activate = False
+
+    class RecTarget(real_target):
+        def activate(self, timeout=None, **options):
+            w.ev.append('llc_activate:target')
+            w.in_activate = True
+            try:
+                return super(RecTarget, self).activate(timeout, **options)
+            finally:
+                w.in_activate = False
+    return RecInitiator, RecTarget
+
+
 class Session(object):
     """rebinds the module attributes for the duration of one case and restores them.
     case['live'] = 'tag': the real nfc.tag.activate and the real presence checks of the tag classes run
@@ -588,7 +720,7 @@ class Session(object):
         w = self.w
         self.saved = (nfc.clf.device.connect, nfc.tag.activate, nfc.tag.emulate,
                       nfc.llcp.llc.LogicalLinkController, nfc.clf.time,
-                      nfc.tag.Tag.is_present, nfc.dep.Initiator, nfc.dep.Target, nfc.llcp.llc.time)
+                      nfc.tag.Tag.is_present, nfc.dep.Initiator, nfc.dep.Target, nfc.llcp.llc.time, nfc.dep.time)
         dev = ScriptedDevice(w)
         self.dev = dev
         nfc.clf.device.connect = lambda path: dev
@@ -654,6 +786,13 @@ class Session(object):
             nfc.dep.Initiator = LiveInitiatorMAC
             nfc.dep.Target = LiveTargetMAC
             nfc.llcp.llc.time = VirtualTime()
+        elif w.live == 'dep':
+            # real LogicalLinkController AND real nfc.dep.Initiator / Target over the scripted device
+            LiveLLC.world = w
+            nfc.llcp.llc.LogicalLinkController = LiveLLC
+            nfc.dep.Initiator, nfc.dep.Target = _real_dep_classes(w, self.saved[6], self.saved[7])
+            nfc.llcp.llc.time = VirtualTime()
+            nfc.dep.time = VirtualTime()
         else:
             nfc.llcp.llc.LogicalLinkController = ScriptedLLC
 
@@ -677,7 +816,7 @@ class Session(object):
     def __exit__(self, *a):
         (nfc.clf.device.connect, nfc.tag.activate, nfc.tag.emulate,
          nfc.llcp.llc.LogicalLinkController, nfc.clf.time,
-         nfc.tag.Tag.is_present, nfc.dep.Initiator, nfc.dep.Target, nfc.llcp.llc.time) = self.saved
+         nfc.tag.Tag.is_present, nfc.dep.Initiator, nfc.dep.Target, nfc.llcp.llc.time, nfc.dep.time) = self.saved
         ScriptedLLC.world = LiveLLC.world = LiveInitiatorMAC.world = LiveTargetMAC.world = None
 
 
@@ -773,9 +912,13 @@ def build_connect_options(w, case):
                 d[name] = cb('llcp', key)
         if l_.get('role') is not None:
             d['role'] = l_['role']
-        if w.live == 'llc':
+        if w.live in ('llc', 'dep'):
             d['sec'] = False
             d['agf'] = False
+        if w.live == 'dep':
+            for k in ('acm', 'brs'):
+                if l_.get(k) is not None:
+                    d[k] = l_[k]
         opts['llcp'] = d
     c_ = case.get('card')
     if c_ is not None:
